@@ -525,3 +525,35 @@ Section ClassComplete.
       rewrite (props_fixed_get c d Hnd Hd). reflexivity.
   Qed.
 End ClassComplete.
+
+(* ------------------------------------------------------------------ D. inline structures under nested mappers *)
+Section InlineComplete.
+  Variable ei : einfo_t.
+  Variable re_match re_search : N -> pystr -> bool.
+  Hypothesis Hre : forall p s, re_match p s = true -> re_search p s = true.
+  Variable e : env.
+  Variable D : list (pystr * schema).
+
+  (* If the export and the serializer read "<name>._mapper" under the SAME name, then -- whatever the mapper tree,
+     whether or not the holder field is itself renamed -- the serialization of an inline structure validates against
+     the inline schema (same hypotheses on the inline class and instance as C: object form, completeness fragment,
+     distinct renamed keys, normal forms, required and defaulted attributes present). *)
+  Theorem inline_complete : forall kS kR t key c attrs j fuel n,
+      kS = kR ->
+      find_class e (c_name c) = Some c ->
+      wrapper_form c = false ->
+      forallb (fun d => cfrag ei (fd_field d)) (c_fields c) = true ->
+      nodup_str (map (fun d => rename (sub_renames kR t key) (fd_name d)) (c_fields c)) = true ->
+      Forall (attr_ok re_match e c) attrs ->
+      (forall r, In r (c_required c) -> alist_has attrs r = true) ->
+      (forall d, In d (c_fields c) -> fd_default d <> None -> alist_has attrs (fd_name d) = true) ->
+      (forall d, In d (c_fields c) -> (fdepth (fd_field d) <= n)%nat) ->
+      inline_ser ei re_match e kR t key fuel c attrs = Some j ->
+      valid4 re_search D (S n) (fix_dialect (inline_schema ei kS t key c)) j = true.
+  Proof.
+    intros kS kR t key c attrs j fuel n -> Hfind Hw Hfrag Hnd Hattrs Hreq Hdef Hdep Hser.
+    unfold inline_schema, inline_ser in *.
+    exact (class_complete ei re_match re_search Hre e D (fun _ => sub_renames kR t key)
+                          c attrs j fuel n Hfind Hw Hfrag Hnd Hattrs Hreq Hdef Hdep Hser).
+  Qed.
+End InlineComplete.
